@@ -82,8 +82,37 @@ class LockModel:
         return out
 
     def held_regions(self, f):
-        """[(lock, acquiring node, [nodes executed while the guard is live])]"""
+        """[(lock, acquiring node, [nodes executed while the guard is live], guard variable)]
+        A guard bound by `let` lives to the end of the block that binds it, or to an explicit `drop(guard)` at that level;
+        an acquisition inside a nested block / closure of an initialiser belongs to that nested block."""
         out = []
+
+        def shallow(n):
+            """the calls evaluated as part of n itself: not those inside closures or in the statements of nested blocks (a nested
+            block's tail expression is part of the value: its temporaries live to the end of the enclosing statement)"""
+            stack = [n]
+            while stack:
+                x = stack.pop()
+                if x.get("k") == "Closure":
+                    continue
+                if x.get("k") == "Block" and (x["stmts"] or x.get("labelled")):
+                    if x.get("e") is not None:
+                        stack.append(x["e"])
+                    continue
+                yield x
+                stack.extend(children(x))
+
+        def dropped_at(stmts, var):
+            for j, t in enumerate(stmts):
+                node = t.get("init") if t.get("k") == "LetS" else t.get("e", t)
+                if node is None:
+                    continue
+                for y in shallow(node):
+                    if y.get("k") == "Call" and (callee(y) or "").endswith(("mem::drop", "::drop")) and y.get("args"):
+                        a = peel(y["args"][0])
+                        if a.get("k") == "Var" and a["v"] == var:
+                            return j
+            return None
 
         def visit_block(b):
             stmts = b.get("stmts", [])
@@ -91,20 +120,23 @@ class LockModel:
                 node = s.get("init") if s["k"] == "LetS" else s.get("e")
                 if node is None:
                     continue
-                for x in walk(node):
+                for x in shallow(node):
                     if x.get("k") == "Call":
                         lk = self.acquisition(x)
                         if lk:
                             if s["k"] == "LetS" and s["pat"].get("k") == "Bind":
                                 rest = [t for t in stmts[i + 1:]]
-                                if b.get("e"):
+                                j = dropped_at(rest, s["pat"]["v"])
+                                if j is not None:
+                                    rest = rest[:j]
+                                elif b.get("e"):
                                     rest.append(b["e"])
                                 out.append((lk, x, rest, s["pat"]["v"]))
                             else:
                                 out.append((lk, x, [node], None))
             tail = b.get("e")
             if tail is not None:
-                for x in walk(tail):
+                for x in shallow(tail):
                     if x.get("k") == "Call":
                         lk = self.acquisition(x)
                         if lk:
@@ -209,6 +241,24 @@ def l2(facts, tier):
                             yield ob(["C16"], "L2", key, "violation", where(f, x),
                                      f"{pv} (runs arbitrary implementation code, which may create connections) is issued while {lk} is held: "
                                      f"re-entrant acquisition deadlocks")
+    # negotiation / instantiation messages sent with no cache guard live (nothing to deadlock on)
+    under = set()
+    for fid, f in lm.local.items():
+        if f["crate"] != "savefile_abi":
+            continue
+        for lk, node, region, var in lm.held_regions(f):
+            for r in region:
+                for x in walk(r):
+                    under.add(id(x))
+    for fid, f in sorted(lm.local.items()):
+        if f["crate"] != "savefile_abi":
+            continue
+        for x in walk(f["body"]):
+            if x.get("k") == "Call" and isinstance(x.get("fun"), dict) and id(x) not in under:
+                pv = proto_variant(x)
+                if pv in ALLOWED_UNDER_LOCK:
+                    yield ob(["C16"], "L2", f"foreign:{fid}:unlocked:{pv}", "pass", where(f, x),
+                             f"{pv} is sent from {fid} while no cache guard is live", nontrivial=False)
     # in-image handlers of the negotiation messages
     for hid in ("savefile_abi::abi_entry_light", "savefile_abi::abi_entry"):
         h = facts.fns.get(hid)
@@ -235,3 +285,135 @@ def l2(facts, tier):
                              f"handler of {vn} in {hid} " + (f"acquires {sorted(acq)} (the peer holds a cache lock while it runs)" if acq
                                                               else "acquires no cache lock (library code; user constructors run in the plugin image)"))
                 break
+
+
+# ---------------------------------------------------------------------------------------------
+# L4: no lost wake-up: whoever changes the state a thread may be waiting on signals the condition variable
+
+MUTATORS = ("insert", "remove", "clear", "retain", "entry", "get_mut", "push", "pop", "take", "replace", "extend", "drain",
+            "remove_entry", "swap_remove", "truncate")
+
+
+def _variants_in_pat(p, acc):
+    if not isinstance(p, dict):
+        return
+    if p.get("k") == "Variant" and p.get("adt") not in ("core::option::Option", "core::result::Result"):
+        acc.add(p.get("variant"))
+    for key in ("subs", "pats"):
+        for q in p.get(key, []) or []:
+            _variants_in_pat(q.get("p", q) if isinstance(q, dict) else q, acc)
+    for key in ("sub", "p"):
+        if isinstance(p.get(key), dict):
+            _variants_in_pat(p[key], acc)
+
+
+@rule("L4", ["C16"], floor=0, doc="condition variables: every function that, holding the mutex a waiter sleeps on, changes the protected state to "
+      "something other than the waited-for marker, signals the condition variable before it leaves (no lost wake-up)")
+def l4(facts, tier):
+    from ..flow import parent_map
+    lm = LockModel(facts)
+    cvs = {s["id"]: s for s in facts.statics if "Condvar" in s["ty"] and s["crate"] in ("savefile", "savefile_abi")}
+    if not cvs:
+        yield ob(["C16"], "L4", "no-condvar", "pass", "", "no condition variable exists in savefile / savefile-abi: threads only ever block on "
+                 "the cache mutexes themselves (rules L1, L2)", nontrivial=False)
+        return
+    # helpers that wait on a condvar handed to them
+    wait_helpers = set()
+    for fid, f in lm.local.items():
+        for x in walk(f["body"]):
+            if x.get("k") == "Call" and "Condvar::wait" in (callee(x) or ""):
+                if not any(peel(a).get("k") == "Static" for a in x.get("args", [])):
+                    wait_helpers.add(fid)
+
+    def cv_of(x):
+        for a in x.get("args", []):
+            p = peel(a)
+            if p.get("k") == "Static" and p["id"] in cvs:
+                return p["id"]
+        return None
+
+    waits = []   # (fn, call, condvar, mutex, wait-state variants)
+    for fid, f in lm.local.items():
+        pm = None
+        regions = None
+        for x in walk(f["body"]):
+            if x.get("k") != "Call":
+                continue
+            c = callee(x) or ""
+            if not ("Condvar::wait" in c or target_of(x) in wait_helpers):
+                continue
+            cv = cv_of(x)
+            if cv is None:
+                continue
+            pm = pm or parent_map(f["body"])
+            regions = regions if regions is not None else lm.held_regions(f)
+            mtx = None
+            for lk, node, region, var in regions:
+                if any(x is y for r in region for y in walk(r)):
+                    mtx = lk
+            wv = set()
+            p = pm.get(id(x))
+            child = x
+            while p is not None:
+                if p.get("k") == "Match":
+                    for a in p["arms"]:
+                        if any(child is y for y in walk(a["body"])):
+                            _variants_in_pat(a["pat"], wv)
+                if p.get("k") == "If" and peel(p["c"]).get("k") == "Let" and any(child is y for y in walk(p["t"])):
+                    _variants_in_pat(peel(p["c"])["pat"], wv)
+                child = p
+                p = pm.get(id(p))
+            waits.append((f, x, cv, mtx, wv))
+    for f, x, cv, mtx, wv in waits:
+        yield ob(["C16"], "L4", f"wait:{f['id']}:{cv.split('::')[-1]}", "pass" if mtx else "undecided", where(f, x),
+                 f"{f['id']} waits on {cv} under {mtx} while the entry is {sorted(wv) or '?'}" if mtx else
+                 f"{f['id']} waits on {cv}: the mutex it sleeps on was not identified")
+    for cv in sorted({w[2] for w in waits}):
+        mtxs = {w[3] for w in waits if w[2] == cv and w[3]}
+        wstate = set().union(*[w[4] for w in waits if w[2] == cv])
+        n = 0
+        for fid, f in sorted(lm.local.items()):
+            if f["crate"] not in ("savefile", "savefile_abi"):
+                continue
+            pm = None
+            for lk, node, region, var in lm.held_regions(f):
+                if lk not in mtxs or var is None:
+                    continue
+                for r in region:
+                    for m in walk(r):
+                        if m.get("k") != "Call" or not m.get("args"):
+                            continue
+                        name = (callee(m) or "").rsplit("::", 1)[-1]
+                        recv = m["args"][0]
+                        if name not in MUTATORS or not any(y.get("k") == "Var" and y["v"] == var for y in walk(recv)):
+                            continue
+                        # exempt: putting the waited-for marker in place
+                        vals = {y.get("variant") for a in m["args"][1:] for y in walk(a) if y.get("k") == "Adt"}
+                        if name == "insert" and vals & wstate:
+                            continue
+                        n += 1
+                        pm = pm or parent_map(f["body"])
+                        # a notify in the straight-line code around the mutation, before the function is left
+                        notified = False
+                        node_ = m
+                        p = pm.get(id(node_))
+                        while p is not None and not notified:
+                            if p.get("k") == "Block":
+                                items = list(p["stmts"]) + ([p["e"]] if p.get("e") is not None else [])
+                                for it in items:
+                                    for y in walk(it):
+                                        if y.get("k") == "Call" and "Condvar::notify" in (callee(y) or "") and cv_of(y) == cv:
+                                            notified = True
+                                # does this block leave the function before control can reach the enclosing one?
+                                last = items[-1] if items else None
+                                if last is not None and any(y.get("k") == "Return" for y in walk(last)) and not notified:
+                                    break
+                            if p is r:
+                                pass
+                            node_ = p
+                            p = pm.get(id(p))
+                        key = f"notify:{fid}:{name}#{n}"
+                        yield ob(["C16"], "L4", key, "pass" if notified else "violation", where(f, m),
+                                 f"{fid}: `{name}` on the state guarded by {lk} is followed by a notify on {cv}" if notified else
+                                 f"{fid}: `{name}` changes the state guarded by {lk} and the function returns without signalling {cv}: a thread "
+                                 f"sleeping in a wait on it (entry {sorted(wstate)}) is never woken — concurrent connection attempts hang")
